@@ -34,6 +34,7 @@ def tasks(tier, seed):
     out.append({'kind': 'tok_short'})
     for part in range(4):
         out.append({'kind': 'code_pairs', 'part': part})
+    out.append({'kind': 'trunc'})
     for a in range(len(TOKENS)):
         out.append({'kind': 'tok_long', 'first': a})
     for a in range(len(TOKENS)):
@@ -144,6 +145,21 @@ def run_task(task, acc):
                 acc.nontrivial_count += 1
                 acc.outcome(rt.reduce_params(params)[0])
             acc.sample({'raw': E + '[1mb' + E + '[' + params + 'ma', 'cls': 'AnsiString'})
+        return
+    if k == 'trunc':
+        # a sequence that ends inside an extended-colour group, directly followed by another sequence: the group ends
+        # with its sequence and must not swallow the parameters of the next one
+        heads = ['38', '48', '58', '38;5', '48;2', '38;2;1', '1;38', '1;48;5', '38;2;1;2', '4;58;5']
+        tails = ['5', '2', '4', '', '0', '5;1', '2;1;2;3', '1;2;3', '38;5;1', '7;5']
+        for ctx in ('', E + '[31;1mA'):
+            for h_ in heads:
+                for t_ in tails:
+                    for raw in (ctx + E + '[' + h_ + 'm' + E + '[' + t_ + 'mX' + E + '[mY', ctx + E + '[' + h_ + 'mW' + E + '[' + t_ + 'mX'):
+                        acc.state_count += 1
+                        acc.transitions += 1
+                        acc.current = {'raw': raw, 'cls': 'AnsiString'}
+                        amb, n = run_raw(raw, acc, ('AnsiString', 'AnsiStr'))
+                        acc.nontrivial_count += 1
         return
     if k == 'code_pairs':
         # every ordered pair of known single codes (all effect groups, set and clear codes): one sequence, two sequences
